@@ -1,5 +1,6 @@
 import Lemmas.NumNeeded
 import Lemmas.NumCheck
+import Lemmas.NumPos
 /-! The resolution stage of the VM on a compiled program IS `Spec.prepare` + `checkBalanceVars` + `initBal`
 (`resolution_stage`), for the WHOLE language; and with it the end-to-end equality of `VM.run` and `Spec.run`
 (on their observations) wherever `execute` is known to follow `evalStmts`. -/
@@ -186,7 +187,7 @@ theorem bindL_extends {raw : List (String × String)} {l : List (Ty × String)} 
 
 theorem bindL_lookup {raw : List (String × String)} {l : List (Ty × String)} {env env' : VEnv} (h : bindL raw l env = .ok env')
     (hnd : (env.map (·.1) ++ l.map (·.2)).Nodup) :
-    ∀ p ∈ l, ∃ v, lookupVar env' p.2 = some v ∧ (BVal.ofVal v).bty = p.1.toB := by
+    ∀ p ∈ l, ∃ v, lookupVar env' p.2 = some v ∧ (BVal.ofVal v).bty = p.1.toB ∧ ValPos v := by
   induction l generalizing env with
   | nil => intro p hp; cases hp
   | cons q l ih =>
@@ -205,28 +206,30 @@ theorem bindL_lookup {raw : List (String × String)} {l : List (Ty × String)} {
         intro p hp'
         rcases List.mem_cons.mp hp' with rfl | hp'
         · obtain ⟨more, rfl⟩ := bindL_extends h
-          exact ⟨v, lookupVar_append_some (lookupVar_snoc_self v hfresh), parseValue_bty hp⟩
+          exact ⟨v, lookupVar_append_some (lookupVar_snoc_self v hfresh), parseValue_bty hp, parseValue_valPos hp⟩
         · exact ih h hnd' p hp'
 
 /-! ### the resolution stage -/
 
 theorem rinv_init (store : Store) : RInv store [] [] [] [] [] [] false :=
   ⟨⟨rfl, fun _ _ => rfl, (by intro e he; cases he), (by simp), (by intro e he; cases he)⟩,
-   ⟨(by intro i r h; simp at h), ⟨rfl, (by intro i r h; simp at h)⟩⟩, rfl, rfl⟩
+   ⟨(by intro i r h; simp at h), ⟨rfl, (by intro i r h; simp at h)⟩⟩, rfl, rfl, (by intro i r h; simp at h)⟩
 
-/-- **the resolution stage of the VM is `Spec`'s** — for every compiled program (the whole language), every
-variable map and every store: `SetVarsFromJSON` / `ResolveResources` / `ResolveBalances` fail exactly when
-`Spec.prepare` / `checkBalanceVars` do, with the same error class; and when they succeed the resolved table is the
-value of the resources under `Spec`'s environment and the tracked balances are `Spec`'s initial balances. -/
-theorem resolution_stage {P : Script} {prog : Program} (hc : compile P = .ok prog) (req : Request) (store : Store) :
+/-- **the resolution stage of the VM is `Spec`'s**, stage by stage — for every compiled program (the whole
+language), every variable map and every store: `SetVarsFromJSON` / `ResolveResources` / `ResolveBalances` fail
+exactly when `Spec.prepare` / `checkBalanceVars` do, with the same error class; and when they succeed the resolved
+table is the value of the resources under `Spec`'s environment and the tracked balances are `Spec`'s initial
+balances.  (`hpos`: no portion constant of the table has a zero denominator.) -/
+theorem resolution_stages {P : Script} {prog : Program} (hc : compile P = .ok prog) (hpos : TablePos prog.resources)
+    (req : Request) (store : Store) :
     match prepare P req store with
-    | .error er => VM.run prog req store = .error er
-    | .ok env =>
-      match checkBalanceVars env P.vars with
-      | .error er => VM.run prog req store = .error er
-      | .ok _ => ∃ vars R V B, setVarsFromJSON prog req.vars = .ok vars ∧ resolveResources prog vars store = .ok R ∧
-          resolveBalances prog R store = .ok (V, B) ∧ Ctx prog.resources V env ∧
-          B.bal = initBal store (needed env P.stmts) ∧ EntOK V prog.needed B.accts B.keys ∧ BalOK B.accts B.keys B.bal := by
+    | .error er => setVarsFromJSON prog req.vars = .error er ∨
+        ∃ vars, setVarsFromJSON prog req.vars = .ok vars ∧ resolveResources prog vars store = .error er
+    | .ok env => ∃ vars R, setVarsFromJSON prog req.vars = .ok vars ∧ resolveResources prog vars store = .ok R ∧
+        match checkBalanceVars env P.vars with
+        | .error er => resolveBalances prog R store = .error er
+        | .ok _ => ∃ V B, resolveBalances prog R store = .ok (V, B) ∧ Ctx prog.resources V env ∧ VPos V ∧
+            B.bal = initBal store (needed env P.stmts) ∧ EntOK V prog.needed B.accts B.keys ∧ BalOK B.accts B.keys B.bal := by
   have hck : check P = true := by
     have := compile_ck P
     rw [hc] at this
@@ -237,12 +240,12 @@ theorem resolution_stage {P : Script} {prog : Program} (hc : compile P = .ok pro
   cases hbp : bindPlain P.vars req.vars with
   | error er =>
     rw [hbp] at hsv
-    simp only [VM.run, hsv]
+    exact Or.inl hsv
   | ok plain =>
     rw [hbp] at hsv
     simp only at hsv ⊢
     -- the plain variables are bound, with the declared types
-    have hpl : ∀ d ∈ P.vars, isPlain d = true → ∃ v, lookupVar plain d.name = some v ∧ (BVal.ofVal v).bty = d.ty.toB := by
+    have hpl : ∀ d ∈ P.vars, isPlain d = true → ∃ v, lookupVar plain d.name = some v ∧ (BVal.ofVal v).bty = d.ty.toB ∧ ValPos v := by
       rw [bindPlain_eq] at hbp
       cases hbl : bindL req.vars (plainDecls P.vars) [] with
       | error e => rw [hbl] at hbp; cases hbp
@@ -263,7 +266,10 @@ theorem resolution_stage {P : Script} {prog : Program} (hc : compile P = .ok pro
     have hidx0 : VarIdxOK ({} : CState) := by intro n a hl; simp [lookupIdx] at hl
     obtain ⟨suf, hsuf⟩ := visitVarList_suffix h0
     obtain ⟨lits2, elits2, hlits2⟩ := (visitStmts_ext h1).res
-    have hsim := resolve_sim (store := store) hpl h0 hidx0 good_init hsuf (R := {}) (rinv_init store)
+    have hpos0 : TablePos st0.resources := by
+      intro q hq; apply hpos q
+      rw [hres, elits2]; exact List.mem_append_left _ hq
+    have hsim := resolve_sim (store := store) hpl h0 hidx0 good_init hsuf hpos0 (R := {}) (rinv_init store)
     have hsuf' : st0.resources = suf := by simpa using hsuf
     have hrr : resolveResources prog (plain.map ofP) store =
         match resolveLoop store (plain.map ofP) suf {} with
@@ -276,23 +282,25 @@ theorem resolution_stage {P : Script} {prog : Program} (hc : compile P = .ok pro
     cases hrv : resolveVars store plain P.vars [] with
     | error er =>
       rw [hrv] at hsim
-      simp only [VM.run, hsv, hrr, hsim]
+      exact Or.inr ⟨_, hsv, by rw [hrr]; simp only [hsim]⟩
     | ok env =>
       rw [hrv] at hsim
       obtain ⟨R1, V1, hloop1, hinv1⟩ := hsim
       simp only [Bool.false_or] at hinv1
       obtain ⟨R2, V2, hloop2, hun2, hinv2⟩ := lits_step (vars := plain.map ofP) hlits2 hinv1 (by rw [← elits2, ← hres]; exact hwf)
+        (by rw [← elits2, ← hres]; exact hpos)
       rw [← elits2, ← hres] at hinv2
       have hrr2 : resolveResources prog (plain.map ofP) store = .ok R2 := by rw [hrr, hloop1]; exact hloop2
       have hbv := resolveBalanceVars_fill store hinv2.fill
       rw [hinv2.neg] at hbv
       simp only
+      refine ⟨plain.map ofP, R2, hsv, hrr2, ?_⟩
       rw [checkBalanceVars_eq]
       cases hneg : negSpec env P.vars with
       | true =>
         rw [hneg] at hbv
         simp only [if_true] at hbv ⊢
-        simp only [VM.run, hsv, hrr2, resolveBalances, hbv]
+        simp only [resolveBalances, hbv]
       | false =>
         rw [hneg] at hbv
         simp only [Bool.false_eq_true, if_false] at hbv ⊢
@@ -302,19 +310,50 @@ theorem resolution_stage {P : Script} {prog : Program} (hc : compile P = .ok pro
           simp only [resolveBalances, hbv, hB]
         obtain ⟨binv, _, bent⟩ := needAccounts_post store (B := ⟨[], [], ⟨fun _ _ => none⟩⟩)
           ⟨by intro a s h; simp at h, by intro e he; cases he⟩ hB
-        refine ⟨plain.map ofP, R2, V2, B, hsv, hrr2, hrb, cx, needAccounts_initBal hc cx hB, ?_, ⟨binv.dom, binv.keys⟩⟩
+        refine ⟨V2, B, hrb, cx, hinv2.pos, needAccounts_initBal hc cx hB, ?_, ⟨binv.dom, binv.keys⟩⟩
         intro a x hin acct s ha hx
         obtain ⟨e, he, h1', h2'⟩ := hin
         subst h1'
         obtain ⟨hc1, hc2⟩ := bent e he acct ha
         exact ⟨hc1, hc2 x h2' s hx⟩
 
+/-- the same, in terms of `VM.run` -/
+theorem resolution_stage {P : Script} {prog : Program} (hc : compile P = .ok prog) (hpos : TablePos prog.resources)
+    (req : Request) (store : Store) :
+    match prepare P req store with
+    | .error er => VM.run prog req store = .error er
+    | .ok env =>
+      match checkBalanceVars env P.vars with
+      | .error er => VM.run prog req store = .error er
+      | .ok _ => ∃ vars R V B, setVarsFromJSON prog req.vars = .ok vars ∧ resolveResources prog vars store = .ok R ∧
+          resolveBalances prog R store = .ok (V, B) ∧ Ctx prog.resources V env ∧ VPos V ∧
+          B.bal = initBal store (needed env P.stmts) ∧ EntOK V prog.needed B.accts B.keys ∧ BalOK B.accts B.keys B.bal := by
+  have h := resolution_stages hc hpos req store
+  cases hp : prepare P req store with
+  | error er =>
+    rw [hp] at h
+    rcases h with h | ⟨vars, h1, h2⟩
+    · simp only [VM.run, h]
+    · simp only [VM.run, h1, h2]
+  | ok env =>
+    rw [hp] at h
+    obtain ⟨vars, R, h1, h2, h3⟩ := h
+    simp only
+    cases hcb : checkBalanceVars env P.vars with
+    | error er =>
+      rw [hcb] at h3
+      simp only [VM.run, h1, h2, h3]
+    | ok u =>
+      rw [hcb] at h3
+      obtain ⟨V, B, h4, rest⟩ := h3
+      exact ⟨vars, R, V, B, h1, h2, h4, rest⟩
+
 /-! ### end to end -/
 
 /-- `Execute` of the compiled program follows `evalStmts` from every machine that mirrors `Spec`'s state (what
 `execute_correct` proves for a fragment) -/
 def ExecOK (P : Script) (prog : Program) : Prop :=
-  ∀ (E : List (Acct × Asset)) (V : List BVal) (env : VEnv), Ctx prog.resources V env →
+  ∀ (E : List (Acct × Asset)) (V : List BVal) (env : VEnv), Ctx prog.resources V env → VPos V →
     ∀ (A : List Acct), EntOK V prog.needed A E → ∀ (m : Machine) (F : Full), Rel A E m F →
       match evalStmts env P.stmts F with
       | .error er => VM.execute prog.instrs V m = .error er
@@ -327,10 +366,10 @@ theorem prints_render (l : List Val) : (l.map BVal.ofVal).map (fun v => v.render
 
 /-- **end to end**: wherever `Execute` follows `evalStmts`, running the compiled program on the VM — resolution
 stage included — gives exactly the observations (or the error class) `Spec.run` gives, and never panics -/
-theorem run_eq_of_exec {P : Script} {prog : Program} (hc : compile P = .ok prog) (hex : ExecOK P prog)
-    (req : Request) (store : Store) :
+theorem run_eq_of_exec {P : Script} {prog : Program} (hc : compile P = .ok prog) (hpos : TablePos prog.resources)
+    (hex : ExecOK P prog) (req : Request) (store : Store) :
     (VM.run prog req store).map VM.Result.obs = Outcome.ofExcept ((Num.run P req store).map Result.obs) := by
-  have hrs := resolution_stage hc req store
+  have hrs := resolution_stage hc hpos req store
   unfold Num.run
   cases hp : prepare P req store with
   | error er =>
@@ -347,10 +386,10 @@ theorem run_eq_of_exec {P : Script} {prog : Program} (hc : compile P = .ok prog)
       rw [hrs]; rfl
     | ok u =>
       rw [hcb] at hrs
-      obtain ⟨vars, R, V, B, hv, hr, hb, cx, hbal, hE, hok⟩ := hrs
+      obtain ⟨vars, R, V, B, hv, hr, hb, cx, hvp, hbal, hE, hok⟩ := hrs
       have hrel : Rel B.accts B.keys ({ balances := B } : VM.Machine) { st := { bal := B.bal, postings := [] } } :=
         ⟨rfl, rfl, rfl, rfl, rfl, rfl, rfl, hok⟩
-      have hx := hex _ V env cx _ hE _ _ hrel
+      have hx := hex _ V env cx hvp _ hE _ _ hrel
       simp only [← hbal]
       simp only [VM.run, hv, hr, hb]
       cases hev : evalStmts env P.stmts { st := { bal := B.bal, postings := [] } } with
@@ -364,5 +403,48 @@ theorem run_eq_of_exec {P : Script} {prog : Program} (hc : compile P = .ok prog)
         split
         · rfl
         · simp only [Outcome.map, Except.map, Outcome.ofExcept, VM.Result.obs, Result.obs, hr'.postings, hr'.prints, prints_render]
+
+/-- in the fragment, the portion literals that can reach the resource table have positive denominators -/
+theorem Stmt.litsPos_of_frag {s : Stmt} (h : s.frag = true) : s.litsPos = true := by
+  cases s with
+  | send amt src d =>
+    cases amt <;> cases src <;> simp only [Stmt.frag, Bool.and_eq_true, Bool.false_eq_true] at h <;>
+      simp only [Stmt.litsPos, h.2]
+  | setTxMeta k v => exact litsPos_of_noPortion h
+  | setAccountMeta acc k v =>
+    simp only [Stmt.frag, Bool.and_eq_true] at h
+    exact litsPos_of_noPortion h.1
+  | print e => exact litsPos_of_noPortion h
+  | saveMon _ _ => rfl
+  | saveAll _ _ => rfl
+  | fail => rfl
+
+theorem frag_tablePos {P : Script} {prog : Program} (hc : compile P = .ok prog) (hfr : P.frag) : TablePos prog.resources :=
+  compile_tablePos hc (fun s hs => Stmt.litsPos_of_frag (hfr.2 s hs))
+
+/-- what the VM resolved is what `resolution_stages` describes (the stages are functions) -/
+theorem vpos_of_resolved {P : Script} {prog : Program} (hc : compile P = .ok prog) (hpos : TablePos prog.resources)
+    {req : Request} {store : Store} {vars : List (String × BVal)} {R : Resolved} {vals : List BVal} {B : Balances}
+    (hv : setVarsFromJSON prog req.vars = .ok vars) (hr : resolveResources prog vars store = .ok R)
+    (hb : resolveBalances prog R store = .ok (vals, B)) : VPos vals := by
+  have h := resolution_stages hc hpos req store
+  cases hp : prepare P req store with
+  | error er =>
+    rw [hp] at h
+    rcases h with h | ⟨vars', h1, h2⟩
+    · rw [hv] at h; cases h
+    · rw [hv] at h1; cases h1; rw [hr] at h2; cases h2
+  | ok env =>
+    rw [hp] at h
+    obtain ⟨vars', R', h1, h2, h3⟩ := h
+    rw [hv] at h1; cases h1
+    rw [hr] at h2; cases h2
+    cases hcb : checkBalanceVars env P.vars with
+    | error er => rw [hcb] at h3; rw [hb] at h3; cases h3
+    | ok u =>
+      rw [hcb] at h3
+      obtain ⟨V, B', h4, _, h5, _⟩ := h3
+      rw [hb] at h4; cases h4
+      exact h5
 
 end Num
